@@ -295,6 +295,36 @@ pub fn aimed_damage(frame: &FrameInfo, image: &Image, draw: u64) -> (CDamage, Fi
     }
 }
 
+/// Damage of the `len` field of `frame` such that, after the CRC mismatch it causes, the reader's cursor lands exactly
+/// on the start of a LATER frame of the same block (skipping `skip` whole frames in between): the classic way a
+/// single damaged field makes several consecutive entries disappear while everything after them survives.
+pub fn resync_len_damage(frame: &FrameInfo, live: &[FrameInfo], skip: usize) -> Option<CDamage> {
+    let idx = live.iter().position(|other| other.name == frame.name && other.off == frame.off)?;
+    let target = live.get(idx + 1 + skip)?;
+    if target.name != frame.name || target.off as usize / BLOCK != frame.off as usize / BLOCK {
+        return None;
+    }
+    let new_len = target.off.checked_sub(frame.off + FRAME_HEADER as u64)?;
+    if new_len > u16::MAX as u64 || new_len as usize == frame.payload_len {
+        return None;
+    }
+    Some(CDamage::Write { name: frame.name.clone(), off: frame.off + 4, hex: to_hex(&(new_len as u16).to_le_bytes()) })
+}
+
+/// `aimed_damage`, with a bias towards `resync_len_damage` on control entries (create / position / delete / truncate).
+pub fn aimed_damage_in_context(frame: &FrameInfo, live: &[FrameInfo], image: &Image, draw: u64) -> (CDamage, Field) {
+    let mut rng = draw ^ 0x5E5C;
+    let control = matches!(frame.entry_tag, 1 | 2 | 3);
+    let odds = if control { 2 } else { 8 };
+    if splitmix(&mut rng) % odds == 0 {
+        let skip = (splitmix(&mut rng) % 3) as usize;
+        if let Some(damage) = resync_len_damage(frame, live, skip) {
+            return (damage, Field::Len);
+        }
+    }
+    aimed_damage(frame, image, draw)
+}
+
 /// Unaimed in-place damage somewhere in the image (bit flip, random run, zero run, garbage block).
 pub fn random_inplace_damage(image: &Image, extents: &[(String, u64)], draw: u64) -> Option<CDamage> {
     let mut rng = draw ^ 0x0DD_BA11;
